@@ -8,7 +8,7 @@ use crate::common::{Fnv, Rng};
 use futures::lock::Mutex as AMutex;
 use futures::prelude::*;
 use futures::task::{waker, ArcWake};
-use omaha_client::app_set::{AppSet, VecAppSet};
+use omaha_client::app_set::AppSet;
 use omaha_client::common::{App, CheckOptions, UserCounting};
 use omaha_client::configuration::{Config, Updater};
 use omaha_client::cup_ecdsa::StandardCupv2Handler;
@@ -37,6 +37,23 @@ impl Future for YieldOnce {
             cx.waker().wake_by_ref();
             Poll::Pending
         }
+    }
+}
+
+/// The embedder's app set: like the library's VecAppSet, but the system app need not be the first one.
+pub struct SimAppSet {
+    pub apps: Vec<App>,
+    pub system_idx: usize,
+}
+impl AppSet for SimAppSet {
+    fn get_apps(&self) -> Vec<App> {
+        self.apps.clone()
+    }
+    fn iter_mut_apps(&mut self) -> Box<dyn Iterator<Item = &mut App> + '_> {
+        Box::new(self.apps.iter_mut())
+    }
+    fn get_system_app_id(&self) -> &str {
+        &self.apps[self.system_idx.min(self.apps.len() - 1)].id
     }
 }
 
@@ -94,6 +111,8 @@ pub struct Setup {
     /// 2 = new(real config, None).cup_handler(handler); 3 = new(placeholder, None).config(real).cup_handler(handler);
     /// 4 = new(placeholder, None).cup_handler(handler).config(real).
     pub builder_order: u8,
+    /// which app of the set the embedder's AppSet names as the system app (the library's VecAppSet: the first)
+    pub system_idx: usize,
 }
 impl Default for Setup {
     fn default() -> Self {
@@ -105,6 +124,7 @@ impl Default for Setup {
             start_mode: false,
             keys_in_config: true,
             builder_order: 0,
+            system_idx: 0,
         }
     }
 }
@@ -163,12 +183,15 @@ pub struct Driver {
     pub panicked: Option<crate::common::PanicInfo>,
     pub setup: Setup,
     /// the app set shared with the machine (the observer looks at it between polls, as an embedder would)
-    app_set: Option<Rc<AMutex<VecAppSet>>>,
+    app_set: Option<Rc<AMutex<SimAppSet>>>,
     storage_rc: Option<Rc<AMutex<SimStorage>>>,
     /// 0 = off; otherwise every run-loop iteration starts, with chance 1/n, an embedder task that takes the
     /// shared storage lock, keeps it for one scheduling step, takes the app-set lock (the library's own
     /// order) and releases both.
     pub embedder_rate: u64,
+    /// run(): drop every control handle once this many scheduling rounds have passed
+    pub drop_handles_after: Option<u64>,
+    rounds: u64,
     embedder: Option<Pin<Box<dyn Future<Output = ()>>>>,
     pub embedder_touches: u64,
     /// strict-wake: poll the stream only when the root waker fired since the last poll.
@@ -246,6 +269,8 @@ impl Driver {
             app_set: None,
             storage_rc: None,
             embedder_rate: 0,
+            drop_handles_after: None,
+            rounds: 0,
             embedder: None,
             embedder_touches: 0,
             strict: true,
@@ -262,7 +287,7 @@ impl Driver {
         let mk_cup = || if setup.cup { client_public_keys(w).as_ref().map(StandardCupv2Handler::new) } else { None };
         let cup = mk_cup();
         let apps: Vec<App> = setup.apps.iter().map(|a| a.to_app()).collect();
-        let app_set = Rc::new(AMutex::new(VecAppSet::new(apps)));
+        let app_set = Rc::new(AMutex::new(SimAppSet { apps, system_idx: setup.system_idx }));
         self.app_set = Some(app_set.clone());
         let storage = Rc::new(AMutex::new(SimStorage { w: w.clone() }));
         self.storage_rc = Some(storage.clone());
@@ -338,7 +363,8 @@ impl Driver {
     pub fn rename_system_app(&mut self, channel: &str, to: &str) -> bool {
         let Some(a) = &self.app_set else { return false };
         let Some(mut g) = a.try_lock() else { return false };
-        if let Some(app) = g.iter_mut_apps().next() {
+        let idx = g.system_idx;
+        if let Some(app) = g.iter_mut_apps().nth(idx) {
             app.set_target_channel(Some(channel.to_string()), Some(to.to_string()));
         }
         drop(g);
@@ -729,6 +755,14 @@ impl Driver {
     pub fn run(&mut self, sched: Sched, rng: &mut Rng, mut stop: impl FnMut(&Driver) -> bool) -> RunEnd {
         loop {
             self.settle();
+            self.rounds += 1;
+            if self.drop_handles_after.map(|n| self.rounds > n).unwrap_or(false) {
+                self.drop_handles_after = None;
+                for h in 0..self.handles.len() {
+                    self.drop_handle(h);
+                }
+                self.settle();
+            }
             if self.step_embedder(rng) {
                 self.settle();
             }
